@@ -31,6 +31,66 @@ class Eng:
             self.p.kill()
 
 
+def dump_peak(chk, eng, sd):
+    """the number of rule dumps at every moment (what a concurrent reader, or a crash, would find), not only between calls: the
+    directory is watched (inotify) while dumps are written into it at its limit; the running count of dump files, updated at every
+    create / rename-into / delete event, must never exceed the limit"""
+    import re as _re
+    import time as _t
+    for mx in (1, 3, 5):
+        d = "peak%d" % mx
+        eng.ctl(f"dumppre {d} {mx}")
+        ddir = os.path.join(sd, "w", d)
+        start = len([n for n in os.listdir(ddir) if _re.match(r"^AuthorizationRules_.*\.json$", n)])
+        try:
+            w = subprocess.Popen(["inotifywait", "-m", "-q", "-e", "create", "-e", "moved_to", "-e", "moved_from", "-e", "delete", "--format", "%e %f", ddir],
+                                 stdout=subprocess.PIPE, stderr=subprocess.DEVNULL, text=True)
+        except OSError:
+            chk.notes.append("dump-peak stage skipped: no inotifywait")
+            return
+        _t.sleep(0.3)          # the watch is in place
+        for _ in range(6):
+            eng.ctl(f"dump {d} {mx}")
+        _t.sleep(0.2)
+        w.terminate()
+        try:
+            out = w.communicate(timeout=5)[0]
+        except subprocess.TimeoutExpired:
+            w.kill(); out = ""
+        count, peak, events, counts = start, start, [], []
+        for line in out.splitlines():
+            ev, _, name = line.partition(" ")
+            if not _re.match(r"^AuthorizationRules_.*\.json$", name):
+                continue
+            events.append(ev)
+            if "CREATE" in ev or "MOVED_TO" in ev:
+                count += 1
+            elif "DELETE" in ev or "MOVED_FROM" in ev:
+                count -= 1
+            peak = max(peak, count)
+            counts.append(count)
+        # the same six calls in the model: the number of dumps at every moment (Gpa.Logs.dumpTrace)
+        want, cur = [], start
+        try:
+            for _ in range(6):
+                tr = [int(x) for x in vlib.run_driver(["logs dumptrace %d %d" % (mx, cur)])[0].split(",")]
+                want += tr[1:]
+                cur = tr[-1]
+            if len(events) >= 6 and counts != want:
+                chk.disagreement("dump-trace", {"limit": mx, "dumps_at_start": start}, want, counts)
+        except (RuntimeError, ValueError) as e:
+            chk.broken.append({"kind": "driver", "name": "logs dumptrace", "why": str(e)})
+        chk.case(nontrivial_key=("dump-peak", mx, len(events)))
+        chk.count("dump_directory_events_watched", len(events))
+        if len(events) < 6:
+            chk.notes.append("dump-peak: only %d directory events seen for limit %d" % (len(events), mx))
+            continue
+        if peak > mx:
+            chk.violation("more rule dumps kept than configured", {"situation": "directory at its limit of %d dumps, six more written; counted at every directory event" % mx,
+                                                                    "events": events[:12], "peak": peak}, expected="<= %d at every moment" % mx, observed=peak)
+        shutil.rmtree(ddir, ignore_errors=True)
+
+
 def run(chk):
     rng = vlib.Rng(chk.seed)
     chk.prove()
@@ -253,6 +313,7 @@ def run(chk):
                     chk.violation("a dump other than the oldest was removed", {"max": mx, "before": ids, "after": got_ids})
                 ids = got_ids
             shutil.rmtree(os.path.join(sd, "w", d), ignore_errors=True)
+        dump_peak(chk, eng, sd)
     finally:
         eng.close()
         shutil.rmtree(sd, ignore_errors=True)
